@@ -138,7 +138,8 @@ def run_process(task):
 
 
 def run_merge(task):
-    nvalidators, nfiles, vorder, order, want_sample = task
+    nvalidators, nfiles, vorder, order, want_sample = task[:5]
+    nasync = task[5] if len(task) > 5 else 0
     prog = driver.load_program()
     stats = PathStats()
     f_run = prog.find_fn('run')
@@ -174,9 +175,17 @@ def run_merge(task):
             return Ok(MapVal(ents, 'HashMap'))
 
         I.stubs['ValidatorSync::validate'] = validate_stub
+        # the last `nasync` validators are async ones: their validate() returns a boxed future; the
+        # order in which the tokio tasks complete is a forked choice (mirsym/asyncmodels.py)
+        from mirsym.asyncmodels import ReadyFut
+        I.stubs['ValidatorAsync::validate'] = lambda I2, a, ci, dt: Ref(Cell(ReadyFut(validate_stub(I2, a, ci, dt))), ())
+        I.task_order = lambda n, step: I.concretize(I.fresh_int('ord%d_%d' % (step, n), 0, n - 1), 'task order') if n > 1 else 0
         ctx = mk_context(prog, I, [])
-        validators = VecVal([Ref(Cell(Struct('FakeValidator', (v,))), ()) for v in vorder])
-        return I.call_fn(f_run, [ctx, validators, VecVal(())])
+        vs = [Ref(Cell(Struct('FakeValidator', (v,))), ()) for v in vorder]
+        k = len(vs) - nasync
+        if nasync:
+            out['cover']['merge-async'] = 1
+        return I.call_fn(f_run, [ctx, VecVal(vs[:k]), VecVal(vs[k:])])
 
     def viol(role, summary):
         out['obligations'] += 1
@@ -184,7 +193,7 @@ def run_merge(task):
             return
         roles.add(role)
         out['violations'].append(dict(role=role, summary=summary, plan={str(k): {str(a): b for a, b in v.items()} for k, v in holder['plan'].items()},
-                                      fails=holder['fails'], vorder=list(vorder), order=list(order)))
+                                      fails=holder['fails'], vorder=list(vorder), order=list(order), nasync=nasync))
 
     for I, pk, val in explore(prog, models.M, run_path, stats=stats, max_paths=200000):
         if pk == 'panic':
@@ -451,6 +460,32 @@ def confirm(binary, v, idx):
             v['confirmed'] = True
             v['replay'] = save_replay(PROP, '%s-%d' % (v['role'], idx), files, "list '**'", 'expected blocks first, second, third; ' + v['summary'], v)
         return v
+    if 'plan' in v and v['role'] in ('validator-error-swallowed', 'unexpected-error'):
+        # one block per validator of the witness: sync ones are keep-sorted / keep-unique / line-pattern blocks
+        # (a malformed keep-sorted value fails), async ones are check-lua blocks (a missing script fails)
+        fails = {int(k): bool(x) for k, x in v['fails'].items()}
+        vorder = v['vorder']
+        na = v.get('nasync', 0)
+        async_ids = set(vorder[len(vorder) - na:])
+        sync_kinds = ['keep-sorted%s', 'keep-unique%s', 'line-pattern="^a+$"%s']
+        body = ''
+        for k, vid in enumerate(vorder):
+            if vid in async_ids:
+                body += '# <block name="v%d" check-lua="%s">\nb\na\n# </block>\n' % (vid, 'missing.lua' if fails.get(vid) else 'ok.lua')
+            elif fails.get(vid):
+                body += '# <block name="v%d" keep-sorted="sideways">\nb\na\n# </block>\n' % vid
+            else:
+                body += '# <block name="v%d" %s>\nb\nb\n# </block>\n' % (vid, sync_kinds[(k + 1) % 3] % '')
+        files = {'f0.py': body.encode(), 'ok.lua': b'function validate(ctx, content)\n  return "reported"\nend\n'}
+        r = run_scan(binary, files, ['**/*.py'])
+        want_fail = any(fails.values())
+        failed = r['code'] != 0 and r['diags'] is None
+        v['observed'] = dict(code=r['code'], diags=r['diags'] is not None, stderr=r['stderr'][-200:])
+        if failed != want_fail:
+            v['confirmed'] = True
+            v['replay'] = save_replay(PROP, '%s-%d' % (v['role'], idx), files, "'**/*.py'",
+                                      'expected %s; %s' % ('a failed run (non-zero, no diagnostics)' if want_fail else 'diagnostics', v['summary']), v)
+        return v
     if 'plan' in v:
         # two validators reporting on the same file: keep-sorted and keep-unique blocks in one file
         files = {'f0.py': b'# <block name="a" keep-sorted>\nb\na\n# </block>\n# <block name="b" keep-unique>\na\na\n# </block>\n'
@@ -511,6 +546,9 @@ def main(tier):
         for vo in vorders:
             for fo in forders:
                 mtasks.append((nv, nf, vo, fo, False))
+                for na in range(1, nv + 1):
+                    if tier == 'thorough' or (vo == vorders[0] and fo == forders[0]) or na == 1:
+                        mtasks.append((nv, nf, vo, fo, False, na))
     results += pmap(run_merge, mtasks)
     results += pmap(run_severity, [(L, False) for L in range(-1, b['sev_max'] + 1)])
     results += pmap(run_list, [(n, o, False) for n in (1, 2, 3) for o in ((0, 1, 2), (2, 1, 0))])
@@ -551,7 +589,7 @@ def main(tier):
                      'stderr, to_writer_pretty, write_fmt and process::exit are recording stubs'],
         stubs=['std::io::stderr / Stderr::lock', 'serde_json::to_writer_pretty (records its argument)', 'Write::write_fmt', 'process::exit (ends the path)',
                'ValidatorSync::validate for model validators in the merge harness'],
-        must_cover=['main', 'exit0', 'exit1', 'merge-ok', 'merge-err', 'two validators on one file', 'parsed', 'rejected', 'default', 'list'],
+        must_cover=['main', 'exit0', 'exit1', 'merge-ok', 'merge-err', 'merge-async', 'two validators on one file', 'parsed', 'rejected', 'default', 'list'],
         explanation='exit code and printed map compared with the severities chosen by the solver on every path; merged map compared with the union of the validators\' maps under several iteration orders')
 
 
